@@ -662,6 +662,42 @@ def run_sql2_case(ctx, model, scico, case, oracle):
     if not float(np.linalg.norm(res)) <= bound:
         ctx.disagree("sql2.system", case, float(np.linalg.norm(res)), bound, oracle=oracle,
                      note="residual of (I+2 a lam A^H W A)x - (v+2 a lam A^H W y) at the returned x")
+    # keyword `x0` (initial guess): the CG branch starts from it - directly and through a ScaledFunctional wrapper -,
+    # from zeros when it is absent or None; the result still solves the system to the loss's tolerance
+    if not exact:
+        import scico.functional as F_
+        import scico.loss as SL
+
+        X0 = snp.array(G.dy(ctx.rng, (n,), cplx))
+        seen = []
+        real_cg = SL.cg
+
+        def cg_rec(A_, b_, x0_=None, **kws):
+            seen.append(np.asarray(x0_))
+            return real_cg(A_, b_, x0_, **kws)
+
+        SL.cg = cg_rec
+        try:
+            outs = [_impl(lambda: G.il(np.asarray(L.prox(v, lam, x0=X0)), cplx)),
+                    _impl(lambda: G.il(np.asarray(F_.ScaledFunctional(L, 2.0).prox(v, lam / 2.0, x0=X0)), cplx)),
+                    _impl(lambda: G.il(np.asarray(L.prox(v, lam, x0=None)), cplx))]
+        finally:
+            SL.cg = real_cg
+        want0 = [np.asarray(X0), np.asarray(X0), np.zeros_like(np.asarray(v))]
+        ctx.count("sql2:x0 keyword checked")
+        for idx, (o_, w0) in enumerate(zip(outs, want0)):
+            how_ = ["L.prox(v, lam, x0=X0)", "ScaledFunctional(L, 2).prox(v, lam/2, x0=X0)", "L.prox(v, lam, x0=None)"][idx]
+            if o_[0] != "ok" or len(seen) <= idx or seen[idx].shape != w0.shape or not np.array_equal(seen[idx], w0):
+                fail = {"what": f"{how_}: CG was not started from the given initial guess (zeros for None)",
+                        "x0 given": None if idx == 2 else G.il(np.asarray(X0), cplx).tolist(),
+                        "x0 used": None if len(seen) <= idx else G.il(seen[idx], cplx).tolist()}
+                ctx.disagree("sql2.x0", case, fail["x0 used"], fail["x0 given"], oracle=lambda _c, fail=fail: fail)
+                break
+            r0 = np.asarray(b2fs(model.call("sql2res", scale=case["scale"], lam=case["lam"], A=[fs2b(r_) for r_ in AR], ncols=AR.shape[1],
+                                            w=fs2b(wr), y=case["y"], v=case["v"], x=fs2b(o_[1]))))
+            if not float(np.linalg.norm(r0)) <= bound:
+                ctx.disagree("sql2.x0.system", case, float(np.linalg.norm(r0)), bound, oracle=oracle, note=how_)
+                break
     # the hessian the system is built from
     z = snp.array(G.dy(ctx.rng, (n,), cplx))
     hz = _impl(lambda: G.il(np.asarray(L.hessian(z)), cplx))
